@@ -133,3 +133,15 @@ def pick(table, idx):
         if idx == i:
             return table[i]
     raise IndexError(idx)
+
+
+def ci(x, lo, hi):
+    """concrete int equal to the symbolic x in [lo, hi] (explicit branching; the solver decides each comparison)"""
+    for v in range(lo, hi + 1):
+        if x == v:
+            return v
+    raise ValueError("out of range")
+
+
+def cb(x):
+    return True if x else False
